@@ -17,6 +17,8 @@ const EPOCH_MIN: i64 = cal::DAYS_TO_1970 * 1440;
 pub fn schedules(thorough: bool) -> Vec<&'static str> {
     let mut v = vec![
         "* * * * *", "*/7 * * * *", "59 23 31 12 *", "0 0 29 2 *", "0 0 31 * *", "0 0 * * 1", "0 0 13 * 5", "0 12 1 1,7 *", "30 4 1,15 * 5", "0 */6 * * *", "15,45 9-17 * * 1-5", "0 0 1 * *",
+        // day-of-month lists mixing days that short months lack with days at the start of the month
+        "0 0 1,30 * *", "0 12 2,31 * *", "30 6 */5 * *",
     ];
     if thorough {
         v.extend([
@@ -39,6 +41,7 @@ pub fn starts() -> Vec<i64> {
         unix_of(2022, 7, 1, 11, 59, 59), unix_of(2022, 7, 1, 12, 0, 0), unix_of(2022, 7, 1, 12, 0, 59), unix_of(2023, 12, 31, 23, 59, 59), unix_of(2025, 3, 1, 0, 0, 0),
         unix_of(2022, 6, 15, 6, 6, 6), unix_of(2022, 8, 31, 23, 0, 0), unix_of(2022, 10, 30, 1, 30, 0), unix_of(2022, 11, 6, 22, 58, 59), unix_of(2028, 2, 29, 0, 0, 0),
         unix_of(2022, 3, 13, 2, 30, 0), unix_of(2022, 12, 25, 12, 30, 30), unix_of(2022, 9, 30, 23, 59, 59), unix_of(2022, 2, 28, 12, 0, 0), unix_of(2027, 12, 31, 23, 59, 30),
+        unix_of(2023, 2, 2, 0, 0, 0), unix_of(2023, 2, 26, 6, 30, 0), unix_of(2024, 2, 10, 12, 0, 1),
     ]
 }
 
